@@ -106,18 +106,25 @@ func (runInfo *runInfoStruct) invokeLetMemberExpr(expr *ast.MemberExpr) {
 			runInfo.rv = nilValue
 			return
 		}
+		var key reflect.Value
+		key, runInfo.err = convertReflectValueToType(reflect.ValueOf(expr.Name), runInfo.rv.Type().Key())
+		if runInfo.err != nil {
+			runInfo.err = newStringError(expr, "type string cannot be used as type "+runInfo.rv.Type().Key().String()+" for map key")
+			runInfo.rv = nilValue
+			return
+		}
 		if runInfo.rv.IsNil() {
 			// make new map
 			item := reflect.MakeMap(runInfo.rv.Type())
-			item.SetMapIndex(reflect.ValueOf(expr.Name), value)
+			item.SetMapIndex(key, value)
 			// assign new map
 			runInfo.rv = item
 			runInfo.expr = expr.Expr
 			runInfo.invokeLetExpr()
-			runInfo.rv = item.MapIndex(reflect.ValueOf(expr.Name))
+			runInfo.rv = item.MapIndex(key)
 			return
 		}
-		runInfo.rv.SetMapIndex(reflect.ValueOf(expr.Name), value)
+		runInfo.rv.SetMapIndex(key, value)
 
 	default:
 		runInfo.err = newStringError(expr, "type "+runInfo.rv.Kind().String()+" does not support member operation")
